@@ -28,6 +28,37 @@ func init() {
 			ex.checkAssert(a[0].(*Term), ex.argName(a[1]))
 			return nil
 		},
+		// vAssertEngine: a fact about the explored path that only the engine can observe (e.g. whether a
+		// file was fsynced); natively a no-op, reported without native confirmation (kind ENGINE).
+		"vAssertEngine": func(ex *Exec, fn *ssa.Function, a []Value) Value {
+			c := a[0].(*Term)
+			label := ex.argName(a[1])
+			if ex.pos < len(ex.prefix) {
+				return nil
+			}
+			st := ex.res.stat(label)
+			st.Checked++
+			if !c.IsConst() {
+				ex.fatal("vAssertEngine needs a concrete condition")
+			}
+			if c.IsTrue() {
+				st.Trivial++
+				return nil
+			}
+			st.Failed++
+			ex.flushAsserts()
+			ex.recordFailure(label, "ENGINE", ex.argName(a[2]))
+			return nil
+		},
+		"vFileDirty": func(ex *Exec, fn *ssa.Function, a []Value) Value {
+			if ex.vfs == nil {
+				return tFalse
+			}
+			return mkBool(ex.vfs.dirty[ex.argName(a[0])])
+		},
+		"vRenamedUnsynced": func(ex *Exec, fn *ssa.Function, a []Value) Value {
+			return mkBool(ex.vfs != nil && ex.vfs.renamedDirty)
+		},
 		"vCover": func(ex *Exec, fn *ssa.Function, a []Value) Value {
 			ex.covers[ex.argName(a[0])] = true
 			return nil
@@ -125,6 +156,7 @@ func init() {
 				ex.callNamed(f.Fn, nil, f.Bind, nil)
 			}()
 			if ex.vfs != nil {
+				ex.vfs.freeze()
 				ex.vfs.crashOn = false
 				// the process is gone: every open handle with it
 				ex.vfs.handles = map[*Cell]*vhandle{}
